@@ -333,7 +333,8 @@ def ordered_rule(ctx: Ctx, rule: str) -> None:
     for name, want in (('ordered_logit', 'dist.logisticcdf'), ('ordered_probit', 'bioNormalCdf')):
         g = prog.func('models.ordered', name)
         calls = [c for c in ast.walk(g.node) if isinstance(c, ast.Call) and call_name(c) == 'ordered_likelihood']
-        ok = len(calls) == 1 and not calls[0].args and {k.arg: unparse(k.value) for k in calls[0].keywords} == {
+        bound = prog.bind_call(g, calls[0]) if len(calls) == 1 else None
+        ok = bound is not None and {k: unparse(v) for k, v in bound.items()} == {
             'continuous_value': 'continuous_value', 'list_of_discrete_values': 'list_of_discrete_values', 'tau_parameter': 'tau_parameter', 'cdf': want}
         ctx.add(rule, f'{name}:forward', ok, g, f'{name} forwards its parameters with cdf={want}' if ok else f'{name} forwards {unparse(calls[0]) if calls else "nothing"}', unparse(calls[0]) if calls else '')
 
